@@ -204,6 +204,20 @@ class Interp:
                     if not all(flow.dominates(dom, bb, rb) for rb, _ in self.returns_of(b)):
                         raise Mismatch(f"the local shuffle in {b.path} does not happen on every path to the return")
                     frame.effects[target] = (lambda r: (lambda v: T((v[1] or ()) + (("perm", r[1], r[2]),), v[2]) if v[0] == "T" else v))(rng)
+            # a table built by `let mut t = Vec::with_capacity(n); for i in 0..n { t.push(row(i)) }` is the table of row(i):
+            # exactly one push on that vector, inside a loop, and no other call that takes it mutably
+            pushes = {}
+            for bb, t in b.calls():
+                fn = F.callee(t)[0] or ""
+                if re.search(r"Vec::<T(, A)?>::push$", fn):
+                    target = peel_pass(flow.expr_of(b, t["args"][0], max_depth=200))
+                    if target[0] == "call" and re.search(r"Vec::<T>::(new|with_capacity)$", target[1]):
+                        pushes.setdefault(target, []).append((bb, t))
+            for target, lst in pushes.items():
+                bb, t = lst[0]
+                in_loop = any(bb in b.reachable(x) for x in b.succs(bb))
+                if len(lst) == 1 and in_loop:
+                    frame.effects[target] = (lambda e_: (lambda v: self.eval(e_, frame)))(flow.expr_of(b, t["args"][1], max_depth=200))
             rets = self.returns_of(b)
             vals = []
             for bb, e in rets:
@@ -843,6 +857,8 @@ def tag_generation(ctx, facts, rule="TAG"):
     # multiply(ctx_k, record i, key_k, col_k) over zip(tag_ctx, zip(keys, cols))
     z = flow.find_calls(chunk_b, re.compile(r"Iterator::zip$"))
     okz = False
+    # (a second zip may pair the chunk's rows with their tags further down: the one meant here zips with std::iter::zip(keys, columns))
+    z = [x for x in z if (lambda e: e[0] == "call" and e[1] == "std::iter::zip")(flow.expr_of(chunk_b, x[1]["args"][1], max_depth=4))] if len(z) > 1 else z
     if len(z) == 1:
         a0, a1 = (flow.expr_of(chunk_b, x, max_depth=12) for x in z[0][1]["args"])
         okz = a0[0] == "call" and a0[1].endswith("::iter") and a0[2][0][0] == "upvar" and a1[0] == "call" and a1[1] == "std::iter::zip"
@@ -890,6 +906,23 @@ def tag_generation(ctx, facts, rule="TAG"):
         ups0 = [x for x in _walk_all(a0s) if x[0] == "upvar"]
         via_proj = tag_tbl_ok and a0s[0] == "proj" and a0s[-1] == "i" and len(ups0) == 1 and ups0[0] != idx1[2][0]
         oka = tag_tbl_ok and (via_call or via_proj)
+        if not oka and flow.strip_casts(a0) == ("arg", 2, 0) and flow.strip_casts(a1) == ("arg", 2, 1):
+            # `chunk.iter().zip(&tags).map(|(row, tag)| concatenate_row_and_tag(row, tag))`: the pairing is positional by
+            # construction; the two zipped tables must be the captured chunk and the unpacked tags
+            par = facts.bodies.get(catb.path.rsplit("::{closure", 1)[0])
+            old_ = flow.CLOSURE_DEFS
+            flow.CLOSURE_DEFS = True
+            try:
+                for bb_, t_ in (flow.find_calls(par, re.compile(r"Iterator::map$")) if par is not None else []):
+                    f_ = flow.expr_of(par, t_["args"][1], max_depth=4)
+                    if f_[0] == "agg" and isinstance(f_[1], tuple) and f_[1][:2] == ("closure", catb.path):
+                        src_ = flow.expr_of(par, t_["args"][0], max_depth=14)
+                        if src_[0] == "call" and src_[1].endswith("Iterator::zip") and len(src_[2]) == 2:
+                            rows_, tags_ = src_[2]
+                            rows_up = [x for x in _walk_all(rows_) if x[0] == "upvar"]
+                            oka = rows_[0] == "call" and rows_[1].endswith("::iter") and len(rows_up) == 1 and "into_unpacking_iter" in str(tags_) and "into_unpacking_iter" not in str(rows_)
+            finally:
+                flow.CLOSURE_DEFS = old_
     ctx.ob(rule, "gen:tag-i-to-row-i", oka, "concatenate_row_and_tag(chunk[i], tags[i])" if oka else "a row is concatenated with another row's tag", site_of(catb) if catb is not None else site_of(chunk_b))
     # sizes
     sp = flow.find_calls(outer, re.compile(r"TotalRecords::specified$"))
